@@ -69,6 +69,19 @@ func (p *Proof) IsValid(public Public) bool {
 	if p == nil {
 		return false
 	}
+	// every field is needed below: a proof with a missing field is not valid
+	if p.Commitment == nil ||
+		p.Z1 == nil ||
+		p.W == nil ||
+		p.Z2 == nil ||
+		p.Z3 == nil ||
+		p.S == nil ||
+		p.D == nil ||
+		p.Y == nil ||
+		p.Z == nil ||
+		p.T == nil {
+		return false
+	}
 	if !public.Prover.ValidateCiphertexts(p.D) {
 		return false
 	}
